@@ -5544,6 +5544,9 @@ def symlink_to_bytes(symlink_target):
         else:
             symlink_data.extend(b'\x05')
             ostaname = _ostaunicode(comp)
+            if len(ostaname) > 255:
+                # The length of a path component is recorded in a single byte.
+                raise pycdlibexception.PyCdlibInvalidInput('UDF symlink components can be a maximum of 254 bytes')
             symlink_data.append(len(ostaname))
             symlink_data.extend(b'\x00\x00')
             symlink_data.extend(ostaname)
